@@ -364,6 +364,9 @@ func (w *World) healSuffix() {
 		v.Known = k
 	}
 	w.Viol = append(w.Viol, v)
+	if v.Concerns(w.Cfg.Prop) {
+		w.nOwn++
+	}
 }
 
 func (w *World) memberOfLatest(id uint64) bool {
